@@ -214,6 +214,7 @@ def menu(M, seen):
         add({"op": "observe", "what": "sort", "col": names[-1], "dir": -1})
         add({"op": "observe", "what": "unique", "col": names[0]})
         add({"op": "observe", "what": "to_string"})
+        add({"op": "observe", "what": "to_string", "narrow": True})
         # in-place cell edit through the column (columns are indexed like NumPy arrays)
         for nm in dict.fromkeys([names[0], names[-1]]):
             c = M.get(nm)
@@ -461,6 +462,8 @@ def apply_real(d, M, op):
             d.sort(**{op["col"]: op["dir"]})
         elif op["what"] == "unique":
             d.unique(op["col"])
+        elif op.get("narrow"):
+            d.to_string(truncate_width=3, max_rows=2)   # every cell wider than three characters is CUT in the text, not in the frame
         else:
             d.to_string()
         return d, []
